@@ -83,6 +83,40 @@ def state_check(sd, hist):
                 cand = [c for c in prow if __import__("re").sub(r"\s+", " ", c) == pc]
                 if cand and prow[cand[0]] != val:
                     v.append(((PROP + ".limits-vs-params", col, last), "%s: limits() %r, params(limits=True) %r" % (k[0], val, prow[cand[0]])))
+    # params() / phases() show what each component was configured with (direct oracle from the reference structure, not a differential)
+    model = ok[0]
+    PCOL = {"R": {"rs (Ohm)": 0.5}, "W": {"rs (Ohm)": 0.5}, "C": {"vo (V)": 3.3, "eff (%)": 0.9, "iq (A)": 1e-3, "iis (A)": 1e-4},
+            "I": {"ii (A)": 0.1, "iis (A)": 1e-3}, "M": {"rs (Ohm)": 0.1, "ig (A)": 1e-4}, "S": {"vo (V)": 5.0, "rs (Ohm)": 0.05}}
+    if isinstance(pl, dict):
+        for n, m in model["comps"].items():
+            row = pl["rows"].get((n, 0))
+            if row is None:
+                continue
+            for col, val in PCOL[m["letter"]].items():
+                if row.get(col) != val:
+                    v.append(((PROP + ".params-shows", m["letter"], col, last), "%s: params() shows %r for %s, configured %r" % (n, row.get(col), col, val)))
+    ph_rep = reps.get("phases")
+    sysph = json.loads(model["phases"])
+    if isinstance(ph_rep, dict) and sysph:
+        for n, m in model["comps"].items():
+            pc = json.loads(m["pc"])
+            L = m["letter"]
+            if L in ("R", "W"):
+                exp = {"N/A": None}
+            elif L == "I":
+                keys = [p_ for p_ in sysph if isinstance(pc, dict) and p_ in pc]
+                exp = {p_: pc[p_] for p_ in keys} if keys else {"N/A": 0.1}
+            else:
+                keys = [p_ for p_ in sysph if pc and p_ in pc]
+                exp = {p_: None for p_ in keys} if keys else {"N/A": None}
+            got = {k[1]: r for k, r in ph_rep["rows"].items() if k[0] == n}
+            if set(got) != set(exp):
+                v.append(((PROP + ".phases-shows", L, "active-phases", last), "%s: phases() lists %r, configured %r" % (n, sorted(got), sorted(exp))))
+                continue
+            if L == "I":
+                for p_, val in exp.items():
+                    if got[p_].get("ii (A)") != val:
+                        v.append(((PROP + ".phases-shows", L, "value", last), "%s phase %s: phases() shows ii=%r, configured %r" % (n, p_, got[p_].get("ii (A)"), val)))
     fr = fresh_reports(ok[0])
     if isinstance(fr, tuple) and fr and fr[0] == "BUILD-EXC":
         v.append(((PROP + ".fresh-build-fails", fr[1], last), fr[2]))
